@@ -148,6 +148,10 @@ def make(name, mode, ymode=None, **extra):
         if name.startswith(("QM-gamma-", "QM-beta-")):
             dist = scipy.stats.gamma if name.startswith("QM-gamma-") else scipy.stats.beta
             return QuantileMapping(distribution=dist, mapping_type="parametric", detrending=name.split("-", 2)[2], **kw)
+        if name == "QDM-pr-for_precipitation":  # the explicit-threshold constructors build their own censored gamma
+            return QuantileDeltaMapping.for_precipitation(float(extra["censor_thr"]), **kw, **years_kw(ymode))
+        if name == "QDM-pr-from_variable":
+            return QuantileDeltaMapping.from_variable("pr", censoring_threshold=float(extra["censor_thr"]), **kw, **years_kw(ymode))
         if name == "CDFt-SSR":  # the precipitation default: stochastic singularity removal
             return CDFt(delta_shift="additive", SSR=True, **kw, **years_kw(ymode))
         if name.startswith("QM-parametric-"):
@@ -172,10 +176,13 @@ def make(name, mode, ymode=None, **extra):
 ORACLE_CONFIGS = ["LS-additive", "LS-multiplicative", "DC-additive", "DC-multiplicative", "QM-parametric-additive",
                   "QM-parametric-no_detrending", "QM-parametric-multiplicative", "ECDFM", "QDM-absolute", "QDM-relative",
                   "CDFt-additive", "CDFt-multiplicative", "CDFt-SSR", "QM-gamma-multiplicative", "QM-gamma-no_detrending",
-                  "QM-beta-additive", "QM-sfcWind", "QM-hurs", "LS-multiplicative-flux", "DC-multiplicative-flux"]
+                  "QM-beta-additive", "QM-sfcWind", "QM-hurs", "LS-multiplicative-flux", "DC-multiplicative-flux",
+                  "QDM-pr-for_precipitation", "QDM-pr-from_variable"]
 MULT = {"LS-multiplicative", "DC-multiplicative", "QM-parametric-multiplicative", "QDM-relative", "CDFt-multiplicative",
-        "CDFt-SSR", "LS-multiplicative-flux", "DC-multiplicative-flux"}
-HAS_YEARS = {"QDM-absolute", "QDM-relative", "CDFt-additive", "CDFt-multiplicative", "CDFt-SSR"}
+        "CDFt-SSR", "LS-multiplicative-flux", "DC-multiplicative-flux", "QDM-pr-for_precipitation", "QDM-pr-from_variable"}
+HAS_YEARS = {"QDM-absolute", "QDM-relative", "CDFt-additive", "CDFt-multiplicative", "CDFt-SSR", "QDM-pr-for_precipitation",
+             "QDM-pr-from_variable"}
+QDM_PR = {"QDM-pr-for_precipitation", "QDM-pr-from_variable"}  # censored-gamma fit by Nelder-Mead: a few windows only
 ITER_FIT = {"QM-gamma-multiplicative", "QM-gamma-no_detrending", "QM-beta-additive", "QM-sfcWind", "QM-hurs"}  # MLE by optimiser
 FLUX = [1e-8, 1e-6, 1e-9, 1e-5]  # pr in kg m-2 s-1 has this magnitude
 
@@ -200,6 +207,9 @@ def gen_case(rng, name, tier, j=1):
         if name in ITER_FIT and S < 15:
             S = rng.choice([15, 31, 61])  # two optimiser fits per window
             mode = [max(S, L), S]
+        if name in QDM_PR:
+            S = rng.choice([31, 61, 91])
+            mode = [max(S, L), S]
     else:
         mode = None
         nyO, nyF = rng.randint(1, 8), rng.randint(1, 8)
@@ -208,11 +218,22 @@ def gen_case(rng, name, tier, j=1):
     ymode = None
     if name in HAS_YEARS and rng.random() < 0.6:
         ymode = rng.choice([[17, 9], [5, 3], [3, 1], [1, 1], [9, 9]])
+    if name in HAS_YEARS and j % 2 == 1 and not large:
+        ymode = rng.choice([[17, 9], [5, 3], [9, 9], [9, 5]])  # every other case: year windows with a step > 1 (and year gaps, below)
     rec = dict(config=name, mode=mode, ymode=ymode, nyO=nyO, nyF=nyF, y0=rng.randint(1950, 2000), yF=rng.randint(2001, 2080),
                np_seed=rng.randint(0, 2**31 - 1), short=(not windowed and not large and rng.random() < 0.3),
                sd_ratio=rng.choice([0.5, 1.0, 1.0, 2.0]), shift=rng.choice([-6.0, -1.0, 0.0, 2.0, 10.0]), trend=rng.choice([0.0, 0.0, 0.5]))
     if name.endswith("-flux"):
         rec["flux"] = FLUX[j % len(FLUX)]
+    if name in QDM_PR:
+        rec["censor_thr"] = rng.choice([0.125, 0.5, 1.0])  # powers of two: x * q / q == x exactly
+        rec["at_threshold"] = rng.choice([0, 1, 3])
+    if ymode is not None and not large and (j % 2 == 1 or name in QDM_PR and j % 2 == 0):
+        # a future period whose years are NOT consecutive: two time slices in one array, a missing year, every second year
+        rec["year_gaps"] = rng.choice(["alternate", "decade", "drop-one", "two-slices"])
+        rec["nyF"] = max(rec["nyF"], rng.randint(6, 12))
+        if windowed and S == 1:
+            rec["nyF"] = 4
     if name in ("ECDFM", "QDM-absolute") or name.startswith("QM-parametric"):
         # non-default cdf_threshold (the parameter has to reach every place that thresholds), with values in the clipped tails
         rec["t"] = [1e-3, 1e-6, 1e-10, 1e-2][j % 4]
@@ -237,6 +258,12 @@ def build(rec):
     """-> dict(obs, F, dO, dF, extra) for a recipe"""
     nprs = np.random.RandomState(rec["np_seed"])
     dO, dF = whole_years(rec["y0"], rec["nyO"]), whole_years(rec["yF"], rec["nyF"])
+    if rec.get("year_gaps"):
+        n, y0 = rec["nyF"], rec["yF"]
+        ys = {"alternate": [y0 + 2 * k for k in range(n)], "decade": list(range(y0, y0 + n // 2)) + list(range(y0 + n // 2 + 10, y0 + n + 10)),
+              "drop-one": [y for y in range(y0, y0 + n + 1) if y != y0 + n // 2],
+              "two-slices": list(range(y0, y0 + n // 2)) + list(range(y0 + n // 2 + 23, y0 + n + 23))}[rec["year_gaps"]]
+        dF = np.concatenate([whole_years(y, 1) for y in ys])
     if rec.get("short"):  # window-free: any lengths, down to 2
         nO, nF = int(nprs.randint(2, 40)), int(nprs.randint(2, 40))
         dO, dF = dO[:nO], dF[:nF]
@@ -252,6 +279,15 @@ def build(rec):
                 # threshold inside the debiaser is not a matter of rounding
                 F[nprs.choice(F.size, size=k_at, replace=False)] = thr
             extra = dict(censor=rec.get("censor", False), censor_thr=thr)
+        elif rec["config"] in QDM_PR:
+            # wet-day amounts at or just above the censoring threshold: the fitted censored gamma has mass below it
+            thr = float(rec["censor_thr"])
+            obs = thr + nprs.gamma(0.9, 5.0, dO.size) + 1e-3
+            F = thr + nprs.gamma(0.9, 5.0 * rec["sd_ratio"] ** 0.5, dF.size) + 1e-3
+            k_at = min(int(rec.get("at_threshold", 0)), F.size)
+            if k_at:
+                F[nprs.choice(F.size, size=k_at, replace=False)] = thr
+            extra = dict(censor_thr=thr)
         elif rec["config"] == "CDFt-SSR":
             # strictly positive amounts (no exact zeros); a drier future whose smallest amounts lie below every obs amount
             obs = pr_series(nprs, dO, 3.0, floor=0.05)
@@ -385,8 +421,10 @@ def run_case(rec):
     worst = int(np.argmax(excess))
     if excess[worst] > 0:
         tw = float(tol[worst]) if isinstance(tol, np.ndarray) else tol
-        return (f"{name} (windows {mode}, year windows {ymode}, cdf_threshold {rec.get('t')}, time encodings {rec.get('kinds')}): "
-                f"with cm_hist == obs the output differs from {what} by {err[worst]:.3g} "
+        nan = int((~np.isfinite(out)).sum())
+        how = (f"{nan} steps of the output are NaN / unassigned (first: step {int(np.where(~np.isfinite(out))[0][0])}); " if nan else "")
+        return (f"{name} (windows {mode}, year windows {ymode}, year gaps {rec.get('year_gaps')}, cdf_threshold {rec.get('t')}, time encodings "
+                f"{rec.get('kinds')}): {how}with cm_hist == obs the output differs from {what} by {err[worst]:.3g} "
                 f"at step {worst} ({out[worst]!r} vs {want[worst]!r}; tolerance {tw:.3g}); {int((excess > 0).sum())} of {want.size} steps differ"), info
     return None, info
 
@@ -580,8 +618,14 @@ def run(tier, res, force_search=False):
         elif info.get("calendar") and not any(r.get("config") == "calendar" for _, r in problems):
             problems.append(("time axis handed to the debiaser: " + info["calendar"], dict(rec, config="calendar", case_config=name)))
     res.extra["oracle"] = {"cases": n_or, "steps_compared": compared, "qm_steps_skipped_as_clipped": skipped, "tolerance": "1e-8*max(1,|values|)"}
-    other_pairs_note(rng, res)
-    utils_inverse_large(rng, tier, res, problems)
+    try:
+        other_pairs_note(rng, res)
+    except Exception as ex:  # noqa: BLE001
+        problems.append((f"CDFt (non-default ecdf / iecdf pair) raises {type(ex).__name__} on well-formed input: {str(ex)[:200]}", {"config": "cdft-other-pairs"}))
+    try:
+        utils_inverse_large(rng, tier, res, problems)
+    except Exception as ex:  # noqa: BLE001  (a real-code exception on well-formed input is a finding, not a harness crash)
+        problems.append((f"ibicus.utils.ecdf / iecdf raise {type(ex).__name__} on a tie-free sample: {str(ex)[:200]}", {"config": "utils-ecdf-iecdf"}))
     # ... and through the process pool, also with fewer cells than worker processes (default nr_processes = 4)
     par = [dict(config="apply/LS-additive/parallel", prop=PROP, debiaser=deb_name, dtypes=["float64"] * 3, shape=shape, n=rng.randint(100, 400),
                 np_seed=rng.randint(0, 2**31 - 1), shift=rng.choice([-6.0, 2.0, 10.0]), parallel=True, nr_processes=nproc)
